@@ -21,6 +21,7 @@ from hypothesis import strategies as st
 
 from ..core import Result, attempt, HarnessError
 from .. import spec as S
+from .. import camxspec as C
 from .. import libstate
 
 ID = 'C15'
@@ -49,7 +50,13 @@ RULE = ('Pool per worker: the repository sample of every self-describing '
         'times with only 64 free descriptors (soft RLIMIT_NOFILE lowered '
         'for the step); every open must have the reference outcome and the '
         'probe afterwards must equal the reference ("no matter how often").'
-        '  Distinct by sha1 of the history.')
+        '  Every sample is also present under a name with several dots '
+        '(run.20020603.d01.<reader>), and every case adds one uamiv or '
+        'lateral_boundary file from the reference encoder (camxspec: spans '
+        'crossing midnight / year / century, any grid) under suffix, neutral '
+        'and dotted names.  Where the last extension equals a registered '
+        'reader name, auto-detection must use that reader (class equality '
+        'with format=<name>).  Distinct by sha1 of the history.')
 ASSUMPTIONS = ['the global reader registry is restored from its import-time '
                'snapshot at the top of every case (R6)',
                'sample files of the repository stand for their formats; '
@@ -136,6 +143,11 @@ def build_fixed_pool(d):
                 fo.write(blob)
         pool['s:' + k] = dict(path=s, fmt=None, kind=k, suffix=True)
         pool['n:' + k] = dict(path=n, fmt=None, kind=k, suffix=False)
+    # names with several dots whose LAST extension names the reader
+    for k in SAMPLES:
+        p_ = os.path.join(d, 'run.20020603.d01.%s' % k)
+        shutil.copy(sp[k], p_)
+        pool['d:' + k] = dict(path=p_, fmt=k, kind=k, suffix=True)
     for k, base, fmt, line1 in VARIANTS:
         with open(sp[base], 'rb') as fi:
             blob = fi.read()
@@ -324,6 +336,8 @@ def _main_ref(d):
         ext = {'netcdf': 'nc'}.get(base, base)
         pool['s:' + k] = os.path.join(d, 'sfx_%s.%s' % (k, ext))
         pool['n:' + k] = os.path.join(d, 'neutral_%s.dat' % k)
+    for k in SAMPLES:
+        pool['d:' + k] = os.path.join(d, 'run.20020603.d01.%s' % k)
     for k, base, fmt, line1 in VARIANTS:
         pool['s:' + k] = os.path.join(d, 'sfx_%s.%s' % (k, fmt))
         pool['n:' + k] = os.path.join(d, 'neutral_%s.dat' % k)
@@ -349,7 +363,8 @@ def _main_ref_dummy(d):
 POOLKEYS = ['s:' + k for k in SAMPLES] + ['n:' + k for k in SAMPLES] + \
     ['s:nc1', 'n:nc1', 's:nc2', 'n:nc2', 's:io', 'n:io'] + \
     ['s:' + k for k, _ in BROKEN] + ['n:' + k for k, _ in BROKEN][:2] + \
-    ['s:' + v[0] for v in VARIANTS] + ['n:' + v[0] for v in VARIANTS]
+    ['s:' + v[0] for v in VARIANTS] + ['n:' + v[0] for v in VARIANTS] + \
+    ['d:' + k for k in SAMPLES] + ['s:cx', 's:cx', 'n:cx', 'n:cx', 'd:cx']
 MANYKEYS = ['s:nc1', 'n:nc1', 's:io', 'n:io', 's:nc2', 'n:nc2', 's:uamiv',
             'n:humidity', 's:ffi1001', 'n:bpch', 'n:lateral_boundary',
             's:trunc_uamiv', 'n:trunc_humidity']
@@ -395,7 +410,11 @@ def cases(draw, tier='quick'):
     io = dict(nr=draw(st.integers(1, 3)), nc=draw(st.integers(1, 3)),
               nt=draw(st.integers(1, 3)), sdate=draw(st.sampled_from(
                   [2001001, 1999365, 2020060])))
-    return dict(nc1=nc1, nc2=nc2, io=io, history=hist)
+    # a generated self-describing CAMx binary file (reference encoder): time
+    # spans crossing midnight / year / century, 1-3 layers, any grid
+    cx = draw(C.camxspecs(formats=('uamiv', 'lateral_boundary'), max_n=4,
+                          max_nz=3, max_steps=3, max_spec=3))
+    return dict(nc1=nc1, nc2=nc2, io=io, cx=cx, history=hist)
 
 
 def strategy(tier):
@@ -429,6 +448,19 @@ def make_case_pool(case, d):
         O3=arr, fileattrs=dict(SDATE=io['sdate'], STIME=0, TSTEP=10000,
                                XORIG=0., YORIG=0., XCELL=1000., YCELL=1000.))
     save(iof, 'io', 'nc', 'NETCDF3_CLASSIC', 'ioapi', 'io')
+    cx = case.get('cx')
+    if cx is not None:
+        raw = C.ref_bytes(cx)
+        fmt = cx['fmt']
+        for key, name, sfx in (('s:cx', 'cx.%s' % fmt, True),
+                               ('n:cx', 'cx_neutral.dat', False),
+                               ('d:cx', 'camx.%04d%03d.d02.%s' % (
+                                   cx['start'][0], cx['start'][1], fmt),
+                                True)):
+            pth = os.path.join(d, name)
+            with open(pth, 'wb') as fo:
+                fo.write(raw)
+            pool[key] = dict(path=pth, fmt=fmt, kind='cx-' + fmt, suffix=sfx)
     return pool
 
 
@@ -542,6 +574,8 @@ def check_case(case):
                 r.label('rewritten-path')
                 nt = True
             else:
+                if key not in pool:     # pinned cases of earlier layouts
+                    continue
                 e = pool[key]
                 touched.append(key)
             if aspath:
@@ -598,6 +632,14 @@ def check_case(case):
                                              else 'ok'), klass=e['kind'])
                 continue
             a, b = auto[1], expl[1]
+            if e['suffix'] and e['path'].endswith('.' + e['fmt']) and \
+                    a['cls'] != b['cls']:
+                # the extension names a registered reader: auto-detection
+                # must pick that reader, not merely one that reads the bytes
+                r.fail('explicit-reader', '%s: the extension names %s, '
+                       'auto-detect used %s, format=%s uses %s' % (
+                           key, e['fmt'], a['cls'], e['fmt'], b['cls']),
+                       klass=e['kind'])
             if a['dims'] != b['dims']:
                 r.fail('explicit-dims', '%s: auto (%s) dimensions %r, '
                        'format=%s (%s) %r' % (key, a['cls'], a['dims'],
